@@ -5,6 +5,7 @@ import AasVerif.Lemmas.SdkTyped
 import AasVerif.Lemmas.XmlText
 import AasVerif.Lemmas.SdkXmlRound
 import AasVerif.Lemmas.SdkXmlTotal
+import AasVerif.Lemmas.SdkXmlTyped
 /-!
 # C10 — Python SDK serialization round-trips and rejects bad documents
 
@@ -158,6 +159,13 @@ theorem fromXml_total (mm : MM) (hwf : mm.wf = true) (ns : Text) (py : PyOracle)
     (cd : ClassDecl) (hc : mm.findClass c = some cd) (e : Elem) (exc : String) :
     fromXml mm ns py c e ≠ .crash exc :=
   xRead_total mm hwf ns py e (.asElement c) (by simp [modeKnown, hc]) exc
+
+/-- No mistyped XML document is accepted: whatever tree `<c>_from_str` accepts yields an instance
+that conforms to the meta-model (required properties present, every value of its declared kind,
+classes concrete and among the descendants of the declared class). -/
+theorem fromXml_welltyped (mm : MM) (hwf : mm.wf = true) (ns : Text) (py : PyOracle) (c : Name)
+    (e : Elem) (v : Val) (h : fromXml mm ns py c e = .ok v) : conformsNN mm (.cls c) v = true :=
+  xRead_welltyped mm hwf ns py e (.asElement c) v h
 
 /-! Non-vacuity: a well-formed meta-model with a hierarchy, and an instance of a descendant that
 meets the hypotheses of `json_roundtrip`, `json_roundtrip_via_parent`. -/
